@@ -26,7 +26,7 @@ type c10Tier struct {
 func c10TierOf(name string) c10Tier {
 	switch name {
 	case "quick":
-		return c10Tier{name: name, nGen: envInt("VERIF_C10_NGEN", 36), K: 3, nSim: envInt("VERIF_C10_NSIM", 500), nNative: envInt("VERIF_C10_NNATIVE", 150), cliK: 2,
+		return c10Tier{name: name, nGen: envInt("VERIF_C10_NGEN", 36), K: 3, nSim: envInt("VERIF_C10_NSIM", 500), nNative: envInt("VERIF_C10_NNATIVE", 220), cliK: 3,
 			selfSeeds: 2, selfReps: 10, selfPars: []int{16, 1}, budget: time.Duration(envInt("VERIF_BUDGET_S", 150)) * time.Second}
 	case "thorough":
 		return c10Tier{name: name, nGen: envInt("VERIF_C10_NGEN", 320), K: 8, nSim: envInt("VERIF_C10_NSIM", 14000), nNative: envInt("VERIF_C10_NNATIVE", 3500), cliK: 4,
@@ -664,7 +664,7 @@ func runC10(tierName string) int {
 			"program_origins":              origin,
 			"programs_admitted":            map[string]int{"sim": len(admitted["sim"]), "native": len(admitted["native"])},
 			"excluded_programs":            excluded,
-			"fresh_process_reference_runs": len(pool) * tier.K * len(variants),
+			"fresh_process_reference_runs": len(pool) * (2*tier.K + 2),
 			"cli_fresh_runs":               cliRuns,
 			"cli_disagreements":            cliDisagree,
 			"cross_toolchain_output_differences_informational": crossToolchainDiff,
@@ -686,7 +686,7 @@ func runC10(tierName string) int {
 		}}
 	writeEvidence(ev)
 	fmt.Printf("C10 %s: %d histories (%d distinct non-trivial), %d execs, %d fresh refs, %d cli runs, selftest runs=%d, %.0fs; violations=%d known=%d\n",
-		tier.name, A.evals, A.nontrivial, A.execs, len(pool)*tier.K*len(variants), cliRuns, selfRuns, wall, rep.violations, rep.known)
+		tier.name, A.evals, A.nontrivial, A.execs, len(pool)*(2*tier.K+2), cliRuns, selfRuns, wall, rep.violations, rep.known)
 	cleanupAll()
 	if rep.violations > 0 {
 		return 1
